@@ -327,7 +327,7 @@ def run_contract(cls, n):
         SyncGroupBase.run,
         name=f"SyncGroupBase.run<{cls.__name__},{n} terminals>",
         params=group_params(cls, n), setup=group_setup(n),
-        loops={1: RUN_LOOP},
+        loops={"while1": RUN_LOOP},
         ensures={"never_ends_by_itself_with_resources_held": "released(self)"},
         raises=[Raises(asyncio.CancelledError, when=None,
                        ensures={"asked_back_and_fmmus_freed": "released(self)"}),
